@@ -47,7 +47,7 @@ theorem commit_in_history (hwf : WF C) {net : Net} (hr : Reach C net) {i : Nat} 
     have := (hinv.fresh i hs).2.1
     rw [this] at hc; cases hc
   | true =>
-    obtain ⟨⟨T, hcore, herase⟩, _, _, _⟩ := hinv.nodes i hh hm hs
+    obtain ⟨⟨T, hcore, herase⟩, _, _, _, _⟩ := hinv.nodes i hh hm hs
     have h1 : Stmt.dec (commitHash cs) ∈ (net.outs i).filterMap stmtOf :=
       List.mem_filterMap.mpr ⟨_, hc, rfl⟩
     rw [herase] at h1
@@ -66,12 +66,50 @@ theorem net_agreement (hwf : WF C) {net : Net} (hr : Reach C net) {a b : Nat}
   Spec.agreement (setting C hwf) (reach_inv hwf hr).valid
     (commit_in_history hwf hr ha hma h1) (commit_in_history hwf hr hb hmb h2)
 
+/-- **C01 for blocks.** If every consumer obeys contract A2 in the schedule (a positive
+`ValidateBlockProposal` verdict is only given for a block that commits to the proposed hash:
+`TraceA2`), the blocks two correct members hand to their commit callbacks commit to the same hash;
+with a collision-free commitment (A1, here as a hypothesis about the two blocks) they are the same block. -/
+theorem net_agreement_blocks (hwf : WF C) {net : Net} (hr : Reach C net) (hA2 : TraceA2 net.trace) {a b : Nat}
+    (ha : C.honest a = true) (hb : C.honest b = true)
+    (hma : ∃ m ∈ C.ms, m.id = a) (hmb : ∃ m ∈ C.ms, m.id = b)
+    {ba bb : Block} {ca cb : List CMsg}
+    (h1 : Out.commit ba ca ∈ net.outs a) (h2 : Out.commit bb cb ∈ net.outs b) :
+    ba.hash = bb.hash ∧ ((ba.hash = bb.hash → ba = bb) → ba = bb) := by
+  have hbody := reach_blocks hwf hr hA2
+  have e1 := (hbody a ha hma).2.2 ba ca h1
+  have e2 := (hbody b hb hmb).2.2 bb cb h2
+  have := net_agreement hwf hr ha hb hma hmb h1 h2
+  have hh : ba.hash = bb.hash := by rw [e1, e2, this]
+  exact ⟨hh, fun hinj => hinj hh⟩
+
+/-- under A2 the block a correct member commits is the one certified: it commits to the hash of the
+COMMITs in its certificate (the hash `ValidateBlockConsensus` checks the block against, C03) -/
+theorem net_committed_block_matches (hwf : WF C) {net : Net} (hr : Reach C net) (hA2 : TraceA2 net.trace) {a : Nat}
+    (ha : C.honest a = true) (hma : ∃ m ∈ C.ms, m.id = a) {ba : Block} {ca : List CMsg}
+    (h1 : Out.commit ba ca ∈ net.outs a) : ba.hash = commitHash ca :=
+  (reach_blocks hwf hr hA2 a ha hma).2.2 ba ca h1
+
 /-- the certified hash was accepted (PREPARE sent, or proposed as leader) by a correct member -/
 theorem net_decided_was_accepted (hwf : WF C) {net : Net} (hr : Reach C net) {a : Nat}
     (ha : C.honest a = true) (hma : ∃ m ∈ C.ms, m.id = a) {ba : Block} {ca : List CMsg}
     (h1 : Out.commit ba ca ∈ net.outs a) :
     ∃ v, ∃ m ∈ C.ms, C.honest m.id = true ∧ Ev.acc m.id v (commitHash ca) ∈ net.H :=
   Spec.decided_was_accepted_by_correct (setting C hwf) (reach_inv hwf hr).valid (commit_in_history hwf hr ha hma h1)
+
+/-- **whatever a correct member sends may be delivered to any correct member**: every message in a
+correct member's output is admissible with respect to the current history (its own signatures cover
+statements it made; the signatures it relays were admissible when it logged them).  Together with
+`event_enabled` this shows that the unforgeability constraint never blocks honest traffic. -/
+theorem sent_admissible (hwf : WF C) {net : Net} (hr : Reach C net) {i : Nat} (hh : C.honest i = true)
+    (hm : ∃ m ∈ C.ms, m.id = i) {rcpt : List Nat} {m : Message} (hs : Out.send rcpt m ∈ net.outs i) :
+    AdmMsg C net.H m := by
+  have hinv := reach_inv hwf hr
+  cases hst : net.started i with
+  | false =>
+    have := (hinv.fresh i hst).2.1
+    rw [this] at hs; cases hs
+  | true => exact (hinv.nodes i hh hm hst).sends rcpt m hs
 
 /-! ## the step relation does not restrict the term model: every filtered, admissible event can be taken -/
 
@@ -81,7 +119,7 @@ theorem event_enabled (hwf : WF C) {net : Net} (hr : Reach C net) (i : Nat) (hh 
     ∃ net', NStep C net net' ∧ net'.node i = (step (net.node i) e spi).1
       ∧ net'.outs i = net.outs i ++ (step (net.node i) e spi).2 := by
   have hinv := reach_inv hwf hr
-  obtain ⟨⟨T, hcore, _⟩, _, hvo, hlv⟩ := hinv.nodes i hh hm hs
+  obtain ⟨⟨T, hcore, _⟩, _, hvo, hlv, _⟩ := hinv.nodes i hh hm hs
   have hloc : EventLocal (net.node i) e := eventLocal_of_gate _ e (by rw [hcore.cfg]; exact hg) hns
   obtain ⟨w', g, hruns, hst⟩ := step_runs (net.node i) e spi hloc hvo hlv hcore.ginv.leader
   refine ⟨_, NStep.event net i e spi w' g hh hm hs hns hg ha hruns hst, ?_, ?_⟩
@@ -159,11 +197,28 @@ theorem mem_commitsOf {outs : List Out} {b : Block} {cs : List CMsg} (h : (b, cs
 theorem ex_two_commits : ∃ net, Reach exC net
     ∧ (∃ cs, Out.commit exBlock cs ∈ net.outs 2 ∧ commitHash cs = 99)
     ∧ (∃ cs, Out.commit exBlock cs ∈ net.outs 3 ∧ commitHash cs = 99) := by
-  obtain ⟨net, hr, _, _, ho⟩ := sim_reach exWF exSched (SimState.init exC) (Net.init exC) .init (agrees_init exC) exOk
+  obtain ⟨net, hr, ⟨_, _, ho⟩, _⟩ := sim_reach exWF exSched (SimState.init exC) (Net.init exC) .init (agrees_init exC) exOk
   refine ⟨net, hr, ?_, ?_⟩
   · rw [ho]
     exact ⟨[exCm 2, exCm 3, exCm 1], mem_commitsOf (by decide), rfl⟩
   · rw [ho]
     exact ⟨[exCm 3, exCm 2, exCm 1], mem_commitsOf (by decide), rfl⟩
+
+/-- the schedule of the example obeys A2 (the delivered proposal's block commits to its hash) -/
+theorem ex_traceA2 : TraceA2 exSched.reverse := by
+  intro t ht
+  rw [List.mem_reverse] at ht
+  simp only [exSched, List.mem_cons, List.not_mem_nil, or_false] at ht
+  intro cd rest hspi
+  rcases ht with rfl | rfl | rfl | rfl | rfl | rfl | rfl | rfl | rfl | rfl | rfl | rfl | rfl <;>
+    first
+    | (simp at hspi; done)
+    | (show commitmentOk exPP.block exPP.c.header.hash = true; decide)
+    | trivial
+
+/-- the same execution, with its schedule -/
+theorem ex_trace : ∃ net, Reach exC net ∧ net.trace = exSched.reverse := by
+  obtain ⟨net, hr, _, ht⟩ := sim_reach exWF exSched (SimState.init exC) (Net.init exC) .init (agrees_init exC) exOk
+  exact ⟨net, hr, by rw [ht]; exact List.append_nil _⟩
 
 end LeanHelix.C01Net
